@@ -1,4 +1,101 @@
+import Iauthd.Proto.Step
 import Drv.Util
-def main (_args : List String) : IO UInt32 := do
-  IO.eprintln "driver not implemented yet"
-  return 2
+/-
+  drv_proto model [--version <hex>]  < ops        one record per op, as harness/h_proto.c
+-/
+open Iauthd Iauthd.Proto
+
+namespace Drv.ProtoDrv
+
+structure DSt where
+  mods : Nat := 0
+  conf : Config := {}
+  live : Config := {}
+  st : State := {}
+  started : Bool := false
+  faulted : Bool := false
+
+def hexLines (ls : List Bytes) : String :=
+  Bytes.toHex (ls.flatMap fun l => l ++ [10])
+
+/-- parse the structured configuration fields that accompany `conf` / `reload` -/
+def parseConfig (fs : List String) : Config × Bool := Id.run do
+  let mut c : Config := {}
+  let mut bad := false
+  for f in fs do
+    if f.startsWith "t=" then c := { c with timeout := (f.drop 2).toString.toNat?.getD 0 }
+    else if f.startsWith "bad=" then bad := true
+    else if f.startsWith "s=" then
+      match (f.drop 2).toString.splitOn ":" with
+      | [n, v] => c := { c with xq := c.xq ++ [{ name := Bytes.ofHex n, value := Bytes.ofHex v }] }
+      | _ => pure ()
+    else if f.startsWith "o=" then
+      c := { c with xq := c.xq ++ [{ name := Bytes.ofHex (f.drop 2).toString, isString := false }] }
+    else if f.startsWith "c=" then
+      match (f.drop 2).toString.splitOn ":" with
+      | [n, v] => c := { c with cls := c.cls ++ [{ name := Bytes.ofHex n, value := Bytes.ofHex v }] }
+      | _ => pure ()
+    else if f.startsWith "r=" then
+      match (f.drop 2).toString.splitOn ":" with
+      | n :: kvs =>
+        let kids := kvs.filterMap fun kv =>
+          match kv.splitOn "=" with
+          | [k, v] => some (Bytes.ofString k, Bytes.ofHex v)
+          | _ => none
+        c := { c with cls := c.cls ++ [{ name := Bytes.ofHex n, isString := false, kids := kids }] }
+      | _ => pure ()
+  -- repeated keys inside one file: later entries override (strings) — the generator
+  -- does not emit repeated keys; sections are sorted here as the config set would
+  return ({ c with xq := sortSection c.xq, cls := sortSection c.cls }, bad)
+
+def stepOp (version : Bytes) (d : DSt) (line : String) : DSt × String :=
+  if line.startsWith "case " then ({}, line)
+  else if d.faulted then (d, "")
+  else
+    match Drv.fields line with
+    | ["modules", m] => ({ d with mods := if m == "class" then 2 else if m == "xquery" then 1 else 0 }, "ok")
+    | "conf" :: _ :: rest => ({ d with conf := (parseConfig rest).1 }, "ok")
+    | ["verbosity", _] => (d, "ok")
+    | ["start"] =>
+      let s0 : State := { hasXq := d.mods ≥ 1, hasClass := d.mods ≥ 2 }
+      let (s1, live) := applyConfig s0 {} d.conf true
+      ({ d with st := s1, live := live, started := true }, s!"rc 0 out {hexLines (startup s1 version)}")
+    | "in" :: h :: _ =>
+      if !d.started then (d, "bad-op") else
+      match stepChunk d.st (Bytes.ofHex h) with
+      | .ok (s, out) => ({ d with st := s }, s!"out {hexLines out}")
+      | .error f => ({ d with faulted := true }, s!"fault {repr f}")
+    | ["timeout", id] =>
+      if !d.started then (d, "bad-op") else
+      match stepTimeout d.st (id.toInt?.getD 0) with
+      | .ok (s, out, fired) => ({ d with st := s }, s!"out {hexLines out} {if fired then "fired" else "no-timer"}")
+      | .error f => ({ d with faulted := true }, s!"fault {repr f}")
+    | "reload" :: _ :: rest =>
+      if !d.started then (d, "bad-op") else
+      let (cfg, bad) := parseConfig rest
+      if bad then (d, "rc 1 out =")
+      else
+        let (s, live) := applyConfig d.st d.live cfg false
+        ({ d with st := s, live := live }, "rc 0 out =")
+    | ["eof"] =>
+      if !d.started then (d, "bad-op") else
+      ({ d with started := false }, "exit clean=1 timers=0 out =")
+    | ["logfile", _] => (d, "log ?")
+    | _ => (d, "bad-op")
+
+end Drv.ProtoDrv
+
+open Drv Drv.ProtoDrv in
+def main (args : List String) : IO UInt32 := do
+  let version := match args with
+    | _ :: "--version" :: v :: _ => Bytes.ofHex v
+    | _ => Bytes.ofString "iauthd-c iauthd-git"
+  let lines ← readLines
+  let mut d : DSt := {}
+  let mut out : Array String := Array.mkEmpty lines.size
+  for l in lines do
+    let (d', o) := stepOp version d l
+    d := d'
+    if o != "" then out := out.push o
+  emit (← IO.getStdout) out
+  return 0
